@@ -33,16 +33,20 @@ def c01(tier, seed):
         {"module": "CLImpl", "tag": "flat%d" % n, "constants": consts(n, 1, nest=set()), "invariants": INV},
         {"module": "CLImpl", "tag": "util3", "constants": consts(3, 1, ops={"a", "p", "i", "r", "v"} | UTIL, nest=set()), "invariants": INV},
     ]
+    # the helpers over lists that hold the same comparable callback several times (reference model; W_CALLBACK=1 worlds only)
+    models.append({"module": "UtilGen", "tag": "dups", "constants": {"MaxNodes": 3 if quick else 4, "Defects": set()}, "invariants": ["Ok", "TypeOK"]})
     if not quick:
         models.append({"module": "CLImpl", "tag": "sim8", "role": "simulate", "simulate": "num=4000,seed=%(seed)d", "workers": 8,
                        "constants": consts(8, 1, nest=set()), "invariants": INV, "timeout": 900, "simdepth": 40})
     worlds = [world("cl_single_fn", 0, 0, only_tags=["flat%d" % n, "sim8"]),
-              world("cl_multi_cb", 1, 1, fraction=1.0 if not quick else 0.25, fill="0xFF"),
+              world("cl_multi_cb", 1, 1, fraction=1.0 if not quick else 0.25, fill="0xFF", only_tags=["flat%d" % n, "util3", "sim8"]),
+              world("cl_single_cb_dups", 0, 1, fill="0xAB", only_tags=["dups"]),
               world("cl_spin_fn", 2, 0, fraction=0.25 if not quick else 0.1, fill="0x00", only_tags=["flat%d" % n, "sim8"])]
     if not quick:
         worlds.append(world("cl_multi_fn_clang20", 1, 0, compiler="clang++", std="c++20", opt="-O2", fraction=0.25, only_tags=["flat%d" % n, "sim8"]))
     return {"interp": "harness/cl_interp.cpp", "trace_module": "TraceCL", "models": models, "worlds": worlds,
-            "defects": [{"module": "CLImpl", "constants": consts(3, 2), "invariants": INV, "defect": "stale"}] if not quick else [],
+            "defects": ([{"module": "CLImpl", "constants": consts(3, 2), "invariants": INV, "defect": "stale"}] if not quick else [])
+                       + [{"module": "UtilGen", "constants": {"MaxNodes": 3, "Defects": {"remove_all"}}, "invariants": ["Ok", "TypeOK"], "defect": "remove_all"}],
             "rule": "every transition of the bounded CLImpl model = one script (shortest history reaching a state + one operation incl. stale/empty handles, "
                     "queries, enumerations, invocations), each followed by the probe epilogue; non-trivial = the execution used a stale or empty handle "
                     "(counted by the interpreter per distinct script)",
